@@ -115,6 +115,22 @@ fn raw_universe(run: &mut Run) {
             }
         }
     });
+    // every rank pattern over {empty, P, p, N, q}: men of one kind in both colours next to each
+    // other, runs of every length; 5^8 patterns x 8 slots
+    run.par_shards("RAW rank patterns over {., P, p, N, q} (5^8 x 8 slots)", 40, |ctx, sh| {
+        let alph = [EMPTY, P, P | BLACK, N, Q | BLACK];
+        let slot = sh / 5;
+        for rest in 0..5usize.pow(7) {
+            let mut r = RawPos { b: [EMPTY; 64], stm: (rest & 1) as u8, cr: [false; 4], eps: None, hmc: 3, fmn: 17 };
+            let mut x = rest * 5 + sh % 5;
+            for f in 0..8 {
+                r.b[sq(f, slot as i32)] = alph[x % 5];
+                x /= 5;
+            }
+            ctx.add(RANKS, 1);
+            raw_round_trip(ctx, &r);
+        }
+    });
     // every en-passant file for both sides with a rank-consistent mark, with and without the
     // pawn, every castling value
     run.seq("RAW en-passant marks x castling values", |ctx| {
